@@ -87,7 +87,7 @@ func (o *UntypedRequestBinder) Bind(request *http.Request, routeParams RoutePara
 		}
 
 		if binder.validator != nil {
-			rr := binder.validator.Validate(validatedValue(target))
+			rr := binder.validator.Validate(validatedValue(target, param.In))
 			if rr != nil && rr.HasErrors() {
 				result = append(result, rr.AsError())
 			}
@@ -108,7 +108,19 @@ func (o *UntypedRequestBinder) Bind(request *http.Request, routeParams RoutePara
 // validatedValue is the bound value as the validators expect it: they validate string values
 // as plain strings, so values of registered string formats that are named string types
 // (strfmt.UUID, strfmt.Email, ...) are handed over as their text.
-func validatedValue(target reflect.Value) interface{} {
+//
+// A pointer field holds an optional non-body value: nil when the parameter was not sent (there is
+// nothing to validate), otherwise the validators are handed the value it points to, so that the
+// declared validations apply to pointer fields as they do to plain ones.
+func validatedValue(target reflect.Value, in string) interface{} {
+	if in != "body" {
+		for target.Kind() == reflect.Ptr {
+			if target.IsNil() {
+				return nil
+			}
+			target = target.Elem()
+		}
+	}
 	stringType := reflect.TypeOf("")
 	switch {
 	case target.Kind() == reflect.String && target.Type() != stringType:
